@@ -171,6 +171,13 @@ class C03Requests(Monitor):
                 v = after.vehicles.get(x.split(":", 1)[1])
                 n = sname(v) if v is not None else "missing"
                 if n == "OutOfService":
+                    # excused only when the vehicle ran out of energy; an instruction that takes a carrying vehicle out of
+                    # service is a diversion like any other
+                    told = [e["instruction_type"] for e in _events(events, "INSTRUCTION") if e["vehicle_id"] == v.id]
+                    bv = before.vehicles.get(v.id)
+                    was_carrying = bv is not None and sname(bv) == "ServicingTrip" and len(bv.vehicle_state.route) > 0
+                    if told and was_carrying and "OutOfServiceInstruction" in told:
+                        yield Violation("C03", "an instruction took a vehicle that is carrying passengers out of service", {"request": rid, "vehicle": v.id, "instruction": told})
                     self.state[rid] = "stranded:" + v.id
                     h.flag("stranded")
                 elif not (n == "ServicingTrip" and v.vehicle_state.request.id == rid):
